@@ -180,6 +180,11 @@ def ensure_tree(t, targets=None, quiet=True):
     if (t, tuple(targets)) in _TREE_DONE:
         return b
     _TREE_DONE.add((t, tuple(targets)))
+    if os.environ.get("VF_DEBUG_SKIP_TREE_REBUILD") and (b / "build.ninja").exists():
+        # sensitivity campaigns only (tools/revert_campaign.py, tools/try_seed.sh) and only for changes confined to headers that the
+        # harness itself compiles: the libraries the harness links are left as built.  Never set by a registered command.
+        print("NOTE: VF_DEBUG_SKIP_TREE_REBUILD set: %s tree not brought up to date" % t, flush=True)
+        return b
     with flock(BUILD / (t + ".lock")):
         if not (b / "build.ninja").exists():
             r = run(["cmake", "-G", "Ninja", "-S", REPO, "-B", b, "-Denable-testing=OFF"] + TREE_CFG[t],
